@@ -963,11 +963,8 @@ class RTCSctpTransport(AsyncIOEventEmitter):
 
         # consolidate misordered entries
         self._sack_misordered.add(tsn)
-        for tsn in sorted(self._sack_misordered):
-            if tsn == tsn_plus_one(self._last_received_tsn):
-                self._last_received_tsn = tsn
-            else:
-                break
+        while tsn_plus_one(self._last_received_tsn) in self._sack_misordered:
+            self._last_received_tsn = tsn_plus_one(self._last_received_tsn)
 
         # filter out obsolete entries
         def is_obsolete(x: int) -> bool:
@@ -1172,11 +1169,8 @@ class RTCSctpTransport(AsyncIOEventEmitter):
         # advance cumulative TSN
         self._last_received_tsn = chunk.cumulative_tsn
         self._sack_misordered = set(filter(is_obsolete, self._sack_misordered))
-        for tsn in sorted(self._sack_misordered):
-            if tsn == tsn_plus_one(self._last_received_tsn):
-                self._last_received_tsn = tsn
-            else:
-                break
+        while tsn_plus_one(self._last_received_tsn) in self._sack_misordered:
+            self._last_received_tsn = tsn_plus_one(self._last_received_tsn)
 
         # filter out obsolete entries
         self._sack_duplicates = list(filter(is_obsolete, self._sack_duplicates))
@@ -1441,8 +1435,11 @@ class RTCSctpTransport(AsyncIOEventEmitter):
         """
         gaps: list[list[int]] = []
         gap_next = None
-        for tsn in sorted(self._sack_misordered):
-            pos = (tsn - self._last_received_tsn) % SCTP_TSN_MODULO
+        for pos in sorted(
+            (tsn - self._last_received_tsn) % SCTP_TSN_MODULO
+            for tsn in self._sack_misordered
+        ):
+            tsn = (self._last_received_tsn + pos) % SCTP_TSN_MODULO
             if tsn == gap_next:
                 gaps[-1][1] = pos
             else:
